@@ -2,7 +2,7 @@ from dataclasses import dataclass
 
 from mypy.nodes import CallExpr, MemberExpr, StrExpr
 
-from refurb.checks.common import get_mypy_type, is_same_type, stringify
+from refurb.checks.common import get_mypy_type, is_same_type, stringify, stringify_operand
 from refurb.error import Error
 
 
@@ -88,6 +88,6 @@ def check(node: CallExpr, errors: list[Error]) -> None:
                     return
 
             old = stringify(node)
-            new = f"{stringify(expr)}.{'.'.join(exprs)}"
+            new = f"{stringify_operand(expr, '.')}.{'.'.join(exprs)}"
 
             errors.append(ErrorInfo.from_node(node, f"Replace `{old}` with `{new}`"))
